@@ -265,6 +265,9 @@ func (p *ProbeSup) HandleInspect(from gen.PID, item ...string) map[string]string
 	h := p.H
 	h.enter(p.i, "inspect")
 	defer p.i.exit()
+	if h.Inspect != nil {
+		return h.Inspect(nil, from, item...)
+	}
 	return map[string]string{"probe": h.Name}
 }
 
@@ -328,6 +331,9 @@ func (p *ProbePool) HandleInspect(from gen.PID, item ...string) map[string]strin
 	h := p.H
 	h.enter(p.i, "inspect")
 	defer p.i.exit()
+	if h.Inspect != nil {
+		return h.Inspect(nil, from, item...)
+	}
 	return p.Pool.HandleInspect(from, item...)
 }
 
